@@ -103,7 +103,7 @@ def check(c):
     for ci, (cname, flags, setup) in enumerate(CONTEXTS):
         ins = list(full)
         if ci == 0:
-            ins += r.sample(prefixes, min(len(prefixes), 1500 if c.tier == 'quick' else 20000))
+            ins += r.sample(prefixes, min(len(prefixes), 1000 if c.tier == 'quick' else 20000))
         else:
             ins += r.sample(prefixes, min(len(prefixes), 150 if c.tier == 'quick' else 2000))
         for s in ins:
